@@ -911,6 +911,25 @@ class _BetaArgs(ast.NodeTransformer):
                 if len(vals) == 1:
                     return ast.copy_location(ast.Call(func=ast.Name(id='bool', ctx=ast.Load()), args=vals, keywords=[]), n)
                 return ast.copy_location(ast.BoolOp(op=ast.And() if f.id == 'all' else ast.Or(), values=vals), n)
+        # f(*(a, b, c))  is  f(a, b, c)
+        if any(isinstance(a, ast.Starred) and isinstance(a.value, (ast.Tuple, ast.List)) for a in n.args):
+            flat = []
+            for a in n.args:
+                if isinstance(a, ast.Starred) and isinstance(a.value, (ast.Tuple, ast.List)) and \
+                        not any(isinstance(e, ast.Starred) for e in a.value.elts):
+                    flat += a.value.elts
+                else:
+                    flat.append(a)
+            n.args = flat
+        # itertools.starmap(f, IT)  is  (f(*row) for row in IT)
+        sm = f.id if isinstance(f, ast.Name) else f.attr if isinstance(f, ast.Attribute) else None
+        if sm is not None and sm.lstrip('_') == 'starmap' and len(n.args) == 2 and not n.keywords and \
+                _pure_simple(n.args[0]):
+            row = ast.Name(id=f'row{abs(hash(ast.dump(n))) % 9973}', ctx=ast.Load())
+            return ast.copy_location(ast.GeneratorExp(
+                elt=ast.Call(func=n.args[0], args=[ast.Starred(value=row, ctx=ast.Load())], keywords=[]),
+                generators=[ast.comprehension(target=ast.Name(id=row.id, ctx=ast.Store()), iter=n.args[1], ifs=[],
+                                              is_async=0)]), n)
         # operator.methodcaller('name', *a)(obj) is obj.name(*a) ; attrgetter('name')(obj) is obj.name ; itemgetter(k)(obj)
         # is obj[k]
         if isinstance(f, ast.Call) and len(n.args) == 1 and not n.keywords and \
@@ -918,6 +937,7 @@ class _BetaArgs(ast.NodeTransformer):
             fname = f.func.id if isinstance(f.func, ast.Name) else f.func.attr if isinstance(f.func, ast.Attribute) and \
                 isinstance(f.func.value, ast.Name) and f.func.value.id == 'operator' else None
             k = f.args[0].value
+            fname = fname.lstrip('_') if fname else fname     # `from operator import methodcaller as _methodcaller`
             if fname == 'methodcaller' and isinstance(k, str) and k.isidentifier():
                 return ast.copy_location(ast.Call(func=ast.Attribute(value=n.args[0], attr=k, ctx=ast.Load()),
                                                   args=f.args[1:], keywords=f.keywords), n)
@@ -1061,6 +1081,36 @@ def inline_function(fn: ast.FunctionDef, cls: Optional[ast.ClassDef], inl: Inlin
                     setattr(st, fld, block(sub))
             for hd in getattr(st, 'handlers', []) or []:
                 hd.body = block(hd.body)
+            # SEP.join(gen_helper(..)) as the whole value of an assignment / return: the tokens collected by a loop
+            jv = getattr(st, 'value', None) if isinstance(st, (ast.Assign, ast.Return)) else None
+            if isinstance(jv, ast.Call) and isinstance(jv.func, ast.Attribute) and jv.func.attr == 'join' and \
+                    isinstance(jv.func.value, ast.Constant) and isinstance(jv.func.value.value, str) and \
+                    len(jv.args) == 1 and not jv.keywords and isinstance(jv.args[0], ast.Call) and \
+                    (not isinstance(st, ast.Assign) or (len(st.targets) == 1 and isinstance(st.targets[0], ast.Name))):
+                t = inl.target(jv.args[0], cls)
+                fnm_ = jv.args[0].func.attr if isinstance(jv.args[0].func, ast.Attribute) else \
+                    jv.args[0].func.id if isinstance(jv.args[0].func, ast.Name) else ''
+                chained = fnm_ in ('from_iterable', 'chain') and any(
+                    isinstance(y, ast.Call) and inl.target(y, cls) is not None for y in ast.walk(jv.args[0]))
+                if (t is not None and t[0].is_gen) or chained:
+                    inl.counter += 1
+                    acc = f'tokens{inl.counter}'
+                    tok = f'token{inl.counter}'
+                    new = [ast.Assign(targets=[ast.Name(id=acc, ctx=ast.Store())], value=ast.List(elts=[], ctx=ast.Load())),
+                           ast.For(target=ast.Name(id=tok, ctx=ast.Store()), iter=jv.args[0],
+                                   body=[ast.Expr(value=ast.Call(func=ast.Attribute(value=ast.Name(id=acc, ctx=ast.Load()),
+                                                                                    attr='append', ctx=ast.Load()),
+                                                                 args=[ast.Name(id=tok, ctx=ast.Load())], keywords=[]))],
+                                   orelse=[])]
+                    joined = ast.Call(func=jv.func, args=[ast.Name(id=acc, ctx=ast.Load())], keywords=[])
+                    new.append(ast.Return(value=joined) if isinstance(st, ast.Return) else
+                               ast.Assign(targets=st.targets, value=joined))
+                    for s_ in new:
+                        ast.copy_location(s_, st)
+                        ast.fix_missing_locations(s_)
+                    changed[0] = True
+                    out += block(new)
+                    continue
             # a comprehension over a generator helper, as the whole value of an assignment / return: written as a loop
             # (which the next case then reads through)
             comp = st.value if isinstance(st, (ast.Assign, ast.Return)) and isinstance(
@@ -1441,6 +1491,93 @@ def scalarise_records(fn: ast.FunctionDef, records) -> bool:
     return True
 
 
+class _MatchToIf(ast.NodeTransformer):
+    """match SUBJECT: case P1: .. case P2 if G: .. case _: ..   ==>   if T1: .. elif T2 and G: .. else: ..
+    for the patterns that are plain tests: literals and dotted names (==), None/True/False (is), `a | b`, the wildcard,
+    a capture (`case x:` binds x), and sequence patterns over a subject that is written as a tuple display of the same
+    length.  The subject must be cheap to read again (names, attributes, constants, a tuple of those); anything else is
+    left alone."""
+
+    def __init__(self):
+        self.did = False
+
+    def _test(self, pat, subj, binds):
+        if isinstance(pat, ast.MatchValue):
+            return ast.Compare(left=copy.deepcopy(subj), ops=[ast.Eq()], comparators=[pat.value])
+        if isinstance(pat, ast.MatchSingleton):
+            return ast.Compare(left=copy.deepcopy(subj), ops=[ast.Is()], comparators=[ast.Constant(value=pat.value)])
+        if isinstance(pat, ast.MatchAs):
+            if pat.pattern is None:
+                if pat.name is not None:
+                    binds.append((pat.name, copy.deepcopy(subj)))
+                return ast.Constant(value=True)
+            t = self._test(pat.pattern, subj, binds)
+            if t is not None and pat.name is not None:
+                binds.append((pat.name, copy.deepcopy(subj)))
+            return t
+        if isinstance(pat, ast.MatchOr):
+            sub = []
+            for p_ in pat.patterns:
+                b2 = []
+                t = self._test(p_, subj, b2)
+                if t is None or b2:
+                    return None
+                sub.append(t)
+            if any(isinstance(t, ast.Constant) and t.value is True for t in sub):
+                return ast.Constant(value=True)
+            return ast.BoolOp(op=ast.Or(), values=sub) if len(sub) > 1 else sub[0]
+        if isinstance(pat, ast.MatchSequence) and isinstance(subj, ast.Tuple) and len(pat.patterns) == len(subj.elts) and \
+                not any(isinstance(p_, ast.MatchStar) for p_ in pat.patterns):
+            sub = []
+            for p_, e_ in zip(pat.patterns, subj.elts):
+                t = self._test(p_, e_, binds)
+                if t is None:
+                    return None
+                if not (isinstance(t, ast.Constant) and t.value is True):
+                    sub.append(t)
+            if not sub:
+                return ast.Constant(value=True)
+            return ast.BoolOp(op=ast.And(), values=sub) if len(sub) > 1 else sub[0]
+        return None
+
+    def visit_Match(self, n):
+        n = self.generic_visit(n)
+        subj = n.subject
+        pre = []
+        if not _pure_simple(subj) or any(isinstance(x, ast.Call) for x in ast.walk(subj)):
+            # evaluated once, into a fresh local
+            self.k = getattr(self, 'k', 0) + 1
+            tmp = f'match_subject{self.k}'
+            pre = [ast.copy_location(ast.Assign(targets=[ast.Name(id=tmp, ctx=ast.Store())], value=subj), n)]
+            subj = ast.Name(id=tmp, ctx=ast.Load())
+        arms = []
+        for c in n.cases:
+            binds = []
+            t = self._test(c.pattern, subj, binds)
+            if t is None:
+                return n
+            if c.guard is not None:
+                if binds:
+                    return n        # the guard may read the capture: keep it simple
+                t = c.guard if isinstance(t, ast.Constant) and t.value is True else \
+                    ast.BoolOp(op=ast.And(), values=[t, c.guard])
+            body = [ast.Assign(targets=[ast.Name(id=nm, ctx=ast.Store())], value=v) for nm, v in binds] + list(c.body)
+            arms.append((t, body))
+        node = []
+        for t, body in reversed(arms):
+            if isinstance(t, ast.Constant) and t.value is True:
+                node = body
+            else:
+                node = [ast.If(test=t, body=body, orelse=node)]
+        for x in node:
+            ast.copy_location(x, n)
+            ast.fix_missing_locations(x)
+        self.did = True
+        for x in pre:
+            ast.fix_missing_locations(x)
+        return pre + (node or [ast.copy_location(ast.Pass(), n)])
+
+
 _BROAD_EXC = {'Exception', 'BaseException', 'TypeError', 'ArithmeticError', 'OverflowError'}
 
 
@@ -1516,6 +1653,16 @@ def tidy_blocks(fn: ast.FunctionDef) -> bool:
                     setattr(st, fld, block(sub))
             for h in getattr(st, 'handlers', []) or []:
                 h.body = block(h.body)
+            # if A: X  elif B: X   is   if A or B: X
+            while isinstance(st, ast.If) and len(st.orelse) == 1 and isinstance(st.orelse[0], ast.If) and \
+                    [ast.dump(x) for x in st.body] == [ast.dump(x) for x in st.orelse[0].body] and \
+                    all(isinstance(x, (ast.Return, ast.Raise, ast.Continue, ast.Break, ast.Pass)) for x in st.body):
+                inner = st.orelse[0]
+                vals = (st.test.values if isinstance(st.test, ast.BoolOp) and isinstance(st.test.op, ast.Or) else [st.test]) + \
+                    (inner.test.values if isinstance(inner.test, ast.BoolOp) and isinstance(inner.test.op, ast.Or) else [inner.test])
+                st.test = ast.copy_location(ast.BoolOp(op=ast.Or(), values=vals), st.test)
+                st.orelse = inner.orelse
+                changed[0] = True
             if isinstance(st, ast.If):
                 r = branch_init(st)
                 if r is not None:
@@ -1523,6 +1670,11 @@ def tidy_blocks(fn: ast.FunctionDef) -> bool:
                     out += r
                     i += 1
                     continue
+            # a loop over an empty literal does nothing
+            if isinstance(st, ast.For) and isinstance(st.iter, (ast.Tuple, ast.List)) and not st.iter.elts and not st.orelse:
+                changed[0] = True
+                i += 1
+                continue
             # a, b, c = (x, y, z)  is  a = x; b = y; c = z   when no target is read on the right
             if isinstance(st, ast.Assign) and len(st.targets) == 1 and isinstance(st.targets[0], (ast.Tuple, ast.List)) and \
                     isinstance(st.value, (ast.Tuple, ast.List)) and len(st.targets[0].elts) == len(st.value.elts) and \
@@ -1612,7 +1764,9 @@ def tidy_blocks(fn: ast.FunctionDef) -> bool:
             if isinstance(st, ast.Assign) and len(st.targets) == 1 and isinstance(st.targets[0], ast.Name) and \
                     st.targets[0].id not in loaded and (
                         (isinstance(st.value, ast.Name) and st.value.id in defs_) or isinstance(st.value, ast.Lambda) or
-                        (isinstance(st.value, ast.Constant) and st.targets[0].id == '_')):
+                        (isinstance(st.value, ast.Constant) and st.targets[0].id == '_') or
+                        (isinstance(st.value, (ast.IfExp, ast.Attribute)) and _pure_simple(st.value) and
+                         not any(isinstance(y, ast.Call) for y in ast.walk(st.value)))):
                 return True
             return False
 
@@ -1649,6 +1803,10 @@ def propagate_callable_locals(fn: ast.FunctionDef, helper_names) -> bool:
     def callable_value(v) -> bool:
         if isinstance(v, ast.Name):
             return v.id in helper_names
+        if isinstance(v, ast.Attribute) and isinstance(v.value, ast.Name) and v.value.id in ('self', 'cls') and \
+                not any(isinstance(y, ast.Attribute) and isinstance(y.ctx, ast.Store) and y.attr == v.attr
+                        for y in ast.walk(fn)):
+            return True       # a bound method picked once (`add = self._add_a if c else self._add_b`) and called later
         if isinstance(v, ast.IfExp):
             return callable_value(v.body) and callable_value(v.orelse)
         if isinstance(v, ast.Lambda):
@@ -1657,6 +1815,10 @@ def propagate_callable_locals(fn: ast.FunctionDef, helper_names) -> bool:
             return True
         if isinstance(v, ast.Call) and isinstance(v.func, ast.Name) and v.func.id == '__no_such_key__':
             return True       # the missing-key leaf of a dispatch table read as a conditional
+        if isinstance(v, ast.Call) and isinstance(v.func, ast.Name) and \
+                v.func.id.lstrip('_') in ('methodcaller', 'attrgetter', 'itemgetter') and not v.keywords and \
+                all(_pure_simple(a_) for a_ in v.args):
+            return True       # operator.methodcaller('name', ..): a function value made of constants / plain names
         return False
 
     def block(stmts):
@@ -1839,6 +2001,15 @@ def functional_to_loops(fn: ast.FunctionDef, helper_names=()) -> bool:
                 changed[0] = True
                 out += block([new_if])
                 continue
+            # `f(x) if c else g(x)` as a statement
+            if isinstance(st, ast.Expr) and isinstance(st.value, ast.IfExp):
+                new_if = ast.If(test=st.value.test, body=[ast.Expr(value=st.value.body)],
+                                orelse=[ast.Expr(value=st.value.orelse)])
+                ast.copy_location(new_if, st)
+                ast.fix_missing_locations(new_if)
+                changed[0] = True
+                out += block([new_if])
+                continue
             # acc.append(A if c else B)  (also AugAssign values) with a helper call in an arm: one statement per arm
             ife = None
             if isinstance(st, ast.Expr) and isinstance(st.value, ast.Call) and len(st.value.args) == 1 and \
@@ -1857,6 +2028,22 @@ def functional_to_loops(fn: ast.FunctionDef, helper_names=()) -> bool:
                 ast.fix_missing_locations(new_if)
                 changed[0] = True
                 out += block([new_if])
+                continue
+            # for x in map(F, IT): ..   is   for x0 in IT: x = F(x0); ..
+            if isinstance(st, ast.For) and isinstance(st.iter, ast.Call) and isinstance(st.iter.func, ast.Name) and \
+                    st.iter.func.id == 'map' and len(st.iter.args) == 2 and not st.iter.keywords and \
+                    isinstance(st.target, ast.Name) and (_pure_simple(st.iter.args[0]) or (
+                        isinstance(st.iter.args[0], ast.Call) and isinstance(st.iter.args[0].func, ast.Name) and
+                        st.iter.args[0].func.id.lstrip('_') in ('methodcaller', 'attrgetter', 'itemgetter') and
+                        all(_pure_simple(a_) for a_ in st.iter.args[0].args))):
+                src = ast.Name(id=st.target.id + '_item', ctx=ast.Store())
+                bind_ = ast.Assign(targets=[ast.Name(id=st.target.id, ctx=ast.Store())],
+                                   value=ast.Call(func=st.iter.args[0], args=[ast.Name(id=src.id, ctx=ast.Load())], keywords=[]))
+                new_for = ast.For(target=src, iter=st.iter.args[1], body=[bind_] + list(st.body), orelse=list(st.orelse))
+                ast.copy_location(new_for, st)
+                ast.fix_missing_locations(new_for)
+                changed[0] = True
+                out += block([new_for])
                 continue
             if isinstance(st, ast.For) and not st.orelse and not _own_break(st.body):
                 it = st.iter
@@ -2031,6 +2218,17 @@ def normalise_module(tree: ast.Module, modname: str) -> Dict[str, List[str]]:
                 if isinstance(tgt, ast.Name) and isinstance(getattr(b_, 'value', None), (ast.Tuple, ast.List, ast.Dict, ast.Set)) \
                         and f'{c_.name}.{tgt.id}' not in known_cc:
                     class_consts.setdefault(c_.name, {})[tgt.id] = b_.value
+    for q in sorted(changed):
+        fn_, _cls = funcs[q]
+        if any(isinstance(x, ast.Match) for x in ast.walk(fn_)):
+            try:
+                m2i = _MatchToIf()
+                m2i.visit(fn_)
+                if m2i.did:
+                    ast.fix_missing_locations(fn_)
+                    record.setdefault(q, []).append('match statement read as an if-chain')
+            except Exception as e:  # noqa
+                record.setdefault(q, []).append(f'match not read: {type(e).__name__}: {e}')
     for _pass in range(6):
         any_change = False
         for q in sorted(changed):
